@@ -153,6 +153,13 @@ type Conn struct {
 	hdrBlock     []byte
 	hdrEndStream uint32
 
+	// streamCredit is the stream-level WINDOW_UPDATE the DATA frame in hand has
+	// earned. readStream runs with the request locked, and queueing a frame
+	// blocks while the queue is full; the write loop, which is what empties the
+	// queue, may be waiting for that very request. So readStream only notes the
+	// credit and the read loop sends it once the request has been released.
+	streamCredit int
+
 	state    connState
 	closeRef uint32
 
@@ -885,6 +892,11 @@ func (c *Conn) readLoop() {
 		}
 
 		stop := c.dispatch(fr)
+
+		if c.streamCredit != 0 {
+			c.updateWindow(fr.Stream(), c.streamCredit)
+			c.streamCredit = 0
+		}
 
 		// GOAWAY named the last stream the server will answer. The connection
 		// is done when nothing at or below it is left to wait for, which the
@@ -1650,9 +1662,7 @@ func (c *Conn) readStream(fr *FrameHeader, r *Ctx) (err error) {
 		// Padding counts against the stream window like the data does, so the
 		// credit is for the whole frame, and a frame that is all padding gets
 		// it too. The connection window has been dealt with by the read loop.
-		if fr.Len() != 0 {
-			c.updateWindow(fr.Stream(), fr.Len())
-		}
+		c.streamCredit = fr.Len()
 	}
 
 	return err
